@@ -59,6 +59,21 @@ class CExec(TExec):
             raise TranslateError('slice not in subset: %s' % ast.unparse(e))
         return TExec.eval(self, e, env)
 
+    def cond_value(self, e, env):
+        if isinstance(e, ast.Compare) and len(e.ops) > 1:          # a <= b <= c  ->  (a <= b) and (b <= c)
+            parts, left = [], e.left
+            for op, right in zip(e.ops, e.comparators):
+                parts.append(ast.Compare(left=left, ops=[op], comparators=[right])); left = right
+            return TExec.cond_value(self, ast.BoolOp(op=ast.And(), values=parts), env)
+        return TExec.cond_value(self, e, env)
+
+    def branch(self, test, env, kt, kf):
+        if isinstance(test, ast.Compare) and len(test.ops) > 1:
+            c = self.cond_value(test, env)
+            if isinstance(c, Const): return kt(env) if c.v else kf(env)
+            return '(if %s\n then %s\n else %s)' % (c.coq, kt(env), kf(env))
+        return TExec.branch(self, test, env, kt, kf)
+
     def run(self, stmts, env, k):
         # fallible call in statement position:  x = f(...)   |->   match f' with Some x => rest | None => None end
         if stmts and isinstance(stmts[0], (ast.Assign, ast.Return)) and isinstance(stmts[0].value, ast.Call):
@@ -333,6 +348,42 @@ def check_pinned():
     return '\n'.join(notes) + '\n'
 
 
+# ------------------------------------------------------------------------------------------------ other providers: pure py2sql / sql2py pairs
+
+def gen_other_providers():
+    ORA, MY = 'pony/orm/dbproviders/oracle.py', 'pony/orm/dbproviders/mysql.py'
+    out = ''
+    # Oracle bool: NUMBER(1)
+    f1, _, l1 = load(ORA, 'OraBoolConverter.py2sql'); f2, _, l2 = load(ORA, 'OraBoolConverter.sql2py')
+    expect([ast.unparse(x) for x in body_of(f1)] == ['return int(val)'] and [ast.unparse(x) for x in body_of(f2)] == ['return bool(val)'], 'OraBoolConverter changed')
+    out += ('(* %s:%d,%d OraBoolConverter.py2sql = int(val), sql2py = bool(val) (template) *)\nDefinition ora_bool_py2sql (b : bool) : Z := if b then 1 else 0.\n'
+            'Definition ora_bool_sql2py (z : Z) : bool := negb (z =? 0).\n' % (ORA, l1, l2))
+    # Oracle / MySQL time: the database holds an interval; sql2py turns the timedelta handed back by the driver into a time
+    fo, _, lo = load(ORA, 'OraTimeConverter.sql2py'); fm, _, lm = load(MY, 'MySQLTimeConverter.sql2py')
+    expect(ast.unparse(fo) == ast.unparse(fm), 'OraTimeConverter.sql2py and MySQLTimeConverter.sql2py are no longer the same text')
+    fp, _, lp = load(ORA, 'OraTimeConverter.py2sql')
+    expect([ast.unparse(x) for x in body_of(fp)] == ['return timedelta(hours=val.hour, minutes=val.minute, seconds=val.second, microseconds=val.microsecond)'],
+           'OraTimeConverter.py2sql changed')
+    statics = {'val.days': Sym('days', 'Z'), 'val.seconds': Sym('secs', 'Z'), 'val.microseconds': Sym('us', 'Z')}
+    def f_time(ex, node, env):
+        if len(node.args) != 4 or node.keywords: raise TranslateError('time(...) construction changed: %s' % ast.unparse(node))
+        a = [ex.zterm(ex.eval(x, env)) for x in node.args]
+        return '(time_checked %s %s %s %s)' % tuple(a), 'time_v'
+    class Spec3(CodecSpec):
+        def call(self2, ex, node, env):
+            if ast.unparse(node.func) == 'isinstance' and len(node.args) == 2 and ast.unparse(node.args[0]) == 'val':
+                return Const(ast.unparse(node.args[1]) == 'timedelta')          # the value handed back by the driver is a timedelta
+            return CodecSpec.call(self2, ex, node, env)
+    spec = Spec3(fo.args.args[0].arg, {'val': Sym('<val>', 'opaque')}, statics=statics, ret=lambda ex, v: 'None', fall=lambda ex, env: 'None', fallibles={'time': f_time})
+    ex = CExec(spec)
+    term = ex.run(fo.body, {fo.args.args[0].arg: Sym('<self>', 'self'), 'val': Sym('<val>', 'opaque')}, lambda e: spec.fallthrough(ex, e))
+    out += ('(* %s:%d OraTimeConverter.sql2py = %s:%d MySQLTimeConverter.sql2py on a timedelta (days, seconds, microseconds); None = not converted to a time (returned as is / raises) *)\n'
+            'Definition interval_time_sql2py (days secs us : Z) : option time_v :=\n%s.\n'
+            '(* %s:%d OraTimeConverter.py2sql (template) *)\nDefinition ora_time_py2sql (t : time_v) : td_v := td_make (th t) (tmi t) (ts t) (tus t).\n'
+            % (ORA, lo, MY, lm, term, ORA, lp))
+    return out
+
+
 # ------------------------------------------------------------------------------------------------ Json / array re-wrap condition
 
 KEEP_ATOMS = {'isinstance(val, TrackedValue)': 'tv_is_tracked val',
@@ -387,6 +438,7 @@ def generate():
     out.append(gen_sqlite_date())
     out.append(gen_sqlite_datetime())
     out.append(gen_tracked_validate())
+    out.append(gen_other_providers())
     out.append(check_pinned())
     return '\n'.join(out)
 
